@@ -889,9 +889,7 @@ pub fn reductions(e: &E) -> Vec<E> {
             }
         }
         E::Lambda(xs, b) => {
-            if !b.needs_block() {
-                out.push((**b).clone());
-            }
+            out.push((**b).clone());
             if xs.len() > 1 {
                 out.push(E::Lambda(vec![xs[0].clone()], b.clone()));
             }
@@ -902,9 +900,7 @@ pub fn reductions(e: &E) -> Vec<E> {
         E::If(c, a, b) => {
             out.push((**c).clone());
             for y in [a, b] {
-                if !y.needs_block() {
-                    out.push((**y).clone());
-                }
+                out.push((**y).clone());
             }
             for r in reductions(c) {
                 out.push(E::If(bx(r), a.clone(), b.clone()));
@@ -919,9 +915,7 @@ pub fn reductions(e: &E) -> Vec<E> {
         E::Match(s, alts) => {
             out.push((**s).clone());
             for (_, b) in alts {
-                if !b.needs_block() {
-                    out.push(b.clone());
-                }
+                out.push(b.clone());
             }
             if alts.len() > 1 {
                 for i in 0..alts.len() {
@@ -993,9 +987,7 @@ pub fn reductions(e: &E) -> Vec<E> {
         }
         E::Let(b, body) => {
             out.push((**body).clone());
-            if !b.rhs.needs_block() {
-                out.push(b.rhs.clone());
-            }
+            out.push(b.rhs.clone());
             if b.attr.is_none() {
                 for nb in simple_bind(b) {
                     out.push(E::Let(bx_bind(nb), body.clone()));
@@ -1040,9 +1032,7 @@ pub fn reductions(e: &E) -> Vec<E> {
         }
         E::Block(xs) => {
             for y in xs {
-                if !y.needs_block() {
-                    out.push(y.clone());
-                }
+                out.push(y.clone());
             }
             if xs.len() > 2 {
                 for i in 0..xs.len() {
@@ -1059,9 +1049,7 @@ pub fn reductions(e: &E) -> Vec<E> {
         }
         E::Do(p, a, b) => {
             out.push((**b).clone());
-            if !a.needs_block() {
-                out.push((**a).clone());
-            }
+            out.push((**a).clone());
             if !matches!(p, Pat::Ident(_)) {
                 out.push(E::Do(Pat::Ident("x".into()), a.clone(), b.clone()));
             }
@@ -1137,6 +1125,34 @@ pub fn strip_prelude(e: &E) -> &E {
         match cur {
             E::Let(b, body) if b.attr.is_some() => cur = body,
             _ => return cur,
+        }
+    }
+}
+
+/// The generator's discipline (see `Gen::expr`): a sequence only where a layout block starts at
+/// its first token; statements of a sequence are not sequences; a binding form that is not the
+/// last statement has no sequence as its body.  `reductions` may produce trees outside of it.
+pub fn valid(e: &E, blk: bool) -> bool {
+    match e {
+        E::Ident(_) | E::Lit(_) => true,
+        E::App(f, a) => valid(f, false) && a.iter().all(|y| valid(y, false)),
+        E::Lambda(_, b) => valid(b, true),
+        E::If(c, a, b) => valid(c, false) && valid(a, true) && valid(b, true),
+        E::Match(s, alts) => valid(s, false) && alts.iter().all(|(_, b)| valid(b, true)),
+        E::Infix(l, _, r) => valid(l, false) && valid(r, false),
+        E::Proj(b, _) => valid(b, false),
+        E::Array(xs) => xs.iter().all(|y| valid(y, false)),
+        E::Tuple(xs) => xs.len() != 1 && xs.iter().all(|y| valid(y, false)),
+        E::Record(fs, base) => {
+            fs.iter().all(|(_, v)| v.as_ref().map_or(true, |v| valid(v, false))) && base.as_ref().map_or(true, |b| valid(b, false))
+        }
+        E::Let(b, body) => valid(&b.rhs, true) && valid(body, blk),
+        E::Rec(bs, body) => bs.iter().all(|b| valid(&b.rhs, true)) && valid(body, blk),
+        E::Type(_, body) => valid(body, blk),
+        E::Do(_, a, b) => valid(a, true) && valid(b, blk),
+        E::Block(xs) => {
+            blk && xs.len() >= 2
+                && xs.iter().enumerate().all(|(i, y)| !matches!(y, E::Block(_)) && valid(y, i + 1 == xs.len()))
         }
     }
 }
